@@ -237,6 +237,16 @@ func (rc *replayCtx) lit(t types.Type, v *sx, key string) (string, *Term, bool) 
 			}
 		case u.Info()&types.IsInteger != 0:
 			if n, ok := sxInt(v); ok {
+				if b, isInt := basicInt(t); isInt {
+					// a value outside the machine range (a field no fact constrains in the relaxed query) is reduced into
+					// it; the pinned re-ask below decides whether the reduced input still violates the clause
+					lo, hi, _ := intRange(b)
+					if n.Cmp(lo) < 0 || n.Cmp(hi) > 0 {
+						span := new(big.Int).Add(new(big.Int).Sub(hi, lo), big.NewInt(1))
+						n = new(big.Int).Mod(new(big.Int).Sub(n, lo), span)
+						n.Add(n, lo)
+					}
+				}
 				return fmt.Sprintf("%s(%s)", rc.typeStr(t0), n.String()), p.IntBig(n), true
 			}
 		case u.Info()&types.IsString != 0:
@@ -303,6 +313,9 @@ func (rc *replayCtx) lit(t types.Type, v *sx, key string) (string, *Term, bool) 
 		}
 		if n.Sign() == 0 {
 			return "nil", p.Int(0), true
+		}
+		if dt, ok := rc.ex.dynOf[key]; ok && key != "" {
+			return rc.lit(dt, v, key)
 		}
 		if nt, ok := t.(*types.Named); ok && nt.Obj().Pkg() != nil {
 			if st, ok := ifaceStubs[nt.Obj().Pkg().Path()+"."+nt.Obj().Name()]; ok {
@@ -451,7 +464,7 @@ func tryReplay(P *Program, rep *FuncReport, o *Obligation, r *SolveResult, out m
 		if tm != nil {
 			rc.pins = append(rc.pins, ex.p.Eq(ex.inputs[key], tm))
 		}
-		argExprs = append(argExprs, fmt.Sprintf("a%d := %s", i, s))
+		argExprs = append(argExprs, fmt.Sprintf("var a%d %s = %s", i, rc.typeStr(prm.Type()), s))
 	}
 	// call expression
 	var call string
